@@ -18,7 +18,7 @@ def digit (n : Nat) : UInt8 := UInt8.ofNat (48 + n % 10)
 def fmt2 (n : Nat) : Bytes := [digit (n / 10), digit n]
 def fmt4 (n : Nat) : Bytes := [digit (n / 1000), digit (n / 100), digit (n / 10), digit n]
 
-/-- `strftime('%Y%m%dT%H%M%S')` for years 1000..9999 -/
+/-- `'%04d' % year + strftime('%m%dT%H%M%S')`: `YYYYMMDDThhmmss` for the years 0..9999 -/
 def formatTime (y mo d h mi s : Nat) : Bytes :=
   fmt4 y ++ fmt2 mo ++ fmt2 d ++ [84] ++ fmt2 h ++ fmt2 mi ++ fmt2 s
 
